@@ -313,6 +313,16 @@ func interiorDist(x, a, b Point, minDist s1.ChordAngle, alwaysUpdate bool) (s1.C
 		return minDist, false
 	}
 
+	// The closest point can only be in the interior of AB if X lies in the
+	// hemisphere centered at the edge's midpoint. For edges only a few ulps
+	// long the two sign tests above are decided by rounding noise and can
+	// also pass for an X on the far side of the sphere, where the distance
+	// to the great circle (about zero near the edge's antipode) would be
+	// returned instead of the distance to an endpoint.
+	if x.Dot(a.Add(b.Vector)) <= 0 {
+		return minDist, false
+	}
+
 	// Compute the squared chord length XR^2 = XQ^2 + QR^2 (see above).
 	// This calculation has good accuracy for all chord lengths since it
 	// is based on both the dot product and cross product (rather than
